@@ -232,7 +232,7 @@ impl MuniicPlugin {
         } else {
             for file in &files {
                 let cfg_file: Result<MuniicJsonConfig, _> =
-                    serde_json::from_str(&std::fs::read_to_string(file).unwrap());
+                    serde_json::from_str(&std::fs::read_to_string(file).unwrap_or_default()); // not readable/no utf8 -> parse error/warning
                 if let Ok(cfg_file) = cfg_file {
                     cfg.map.extend(cfg_file.map);
                     cfg.interfaces.extend(cfg_file.interfaces);
